@@ -41,6 +41,11 @@ def cases(tier, seed):
         for k in (1, 2, 3):
             for delta in (-2, -1, 0, 1, 2):
                 yield {"k": "fill", "sizes": [k], "exact": False, "fill": "default", "via": "disk", "kind": kind, "delta": delta}
+    # file names without an extension or with a short one (legal on Disk BASIC; the entry still has its 3 extension bytes)
+    for ext in ("", "C", "SH"):
+        for via in ("disk", "virtual"):
+            for sizes in ([3], [1, 2]):
+                yield {"k": "fill", "sizes": sizes, "exact": False, "fill": "default", "via": via, "ext": ext}
     # synthetic configurations
     places = {"lowest": lambda f: list(range(f)), "highest": lambda f: list(range(68 - f, 68)),
               "around27": lambda f: sorted(range(68), key=lambda g: (abs(g - 27), g))[:f],
@@ -105,6 +110,8 @@ def check_case(case):
         cell = "fill|{}|{}|{}|{}".format("+".join(map(str, case["sizes"])), "exact" if case["exact"] else "inside", case["fill"], case["via"])
         if "kind" in case:
             cell += "|{}{:+d}".format(case["kind"], case["delta"])
+        if "ext" in case:
+            cell += "|ext={}".format(case["ext"] or "none")
         sizes = itertools.cycle(case["sizes"])
         td = None
         try:
@@ -120,7 +127,7 @@ def check_case(case):
             while steps < 90:
                 k = next(sizes)
                 n = (k * 2304 - 10) if case["exact"] else (k * 2304 - 10 - 7)
-                s = c07.fspec("ML", n, "F{}".format(steps))
+                s = c07.fspec("ML", n, "F{}".format(steps), case.get("ext", "BIN"))
                 if "kind" in case:      # stream length = k granules + delta bytes
                     s = c07.fspec(case["kind"], k * 2304 - c07.HDR[case["kind"]] + case["delta"], "F{}".format(steps), "DAT")
                 if n > 65535:       # a machine-language file cannot exceed its 16-bit length field; use a headerless file of the same stream length
@@ -206,7 +213,7 @@ def check_case(case):
 
 def describe(tier):
     return {
-        "alphabet": "fill histories: files of k granules (k=1..34), alternating sizes (k1,k2<=6), exact-multiple stream lengths, under " +
+        "alphabet": "fill histories: files of k granules (k=1..34), alternating sizes (k1,k2<=6), exact-multiple stream lengths, names without or with a short extension, under " +
                     ("all 72" if tier == "thorough" else "10") + " fill orders, via DiskFile.add_file and via VirtualFile append on a host file; synthetic "
                     "images; files of every kind (ML/BASIC/ASCII/DATA: different header and trailer sizes) whose stored stream is k granules +-0,1,2 bytes; synthetic "
                     "images (independent writer) with F free granules for every F in 0..68 at 4 placements and 0/1/2/69/70/71/72 live directory entries",
